@@ -93,24 +93,25 @@ type Conn struct {
 	in, out    *half
 	peer       *Conn
 
-	mu        sync.Mutex
-	closed    bool
-	calls     int
-	reads     int
-	writes    int
-	bytesIn   int
-	bytesOut  int
-	faults    []Fault
-	fired     []Fault
-	readErr   bool
-	writeErr  bool
-	rdeadline time.Time
-	wdeadline time.Time
-	closeSeq  uint64
-	dlsig     chan struct{} // deadline changed
-	hook      Hook
-	mode      *LinkMode
-	onCall    func(call int, isRead bool)
+	mu          sync.Mutex
+	closed      bool
+	calls       int
+	reads       int
+	writes      int
+	bytesIn     int
+	bytesOut    int
+	faults      []Fault
+	fired       []Fault
+	readErr     bool
+	writeErr    bool
+	rdeadline   time.Time
+	wdeadline   time.Time
+	closeSeq    uint64
+	dlsig       chan struct{} // deadline changed
+	hook        Hook
+	mode        *LinkMode
+	onCall      func(call int, isRead bool)
+	errWithData bool
 }
 
 // Stats of an endpoint, for oracles (I/O indices for fault sweeps, Close observed).
@@ -232,11 +233,17 @@ func (c *Conn) Read(p []byte) (int, error) {
 		if len(h.buf) > 0 {
 			n := copy(p, h.buf)
 			h.buf = h.buf[n:]
+			last := len(h.buf) == 0 && h.wclosed && len(h.inflight) == 0
 			h.mu.Unlock()
 			sig(h.wsig) // room again
 			c.mu.Lock()
 			c.bytesIn += n
+			ewd := c.errWithData
 			c.mu.Unlock()
+			if last && ewd {
+				// io.Reader allows the final bytes and io.EOF in one call; some connections do that
+				return n, io.EOF
+			}
 			return n, nil
 		}
 		if h.wclosed && len(h.inflight) == 0 {
@@ -628,6 +635,10 @@ func (c *Conn) SetHook(h Hook) { c.hook = h; c.peer.hook = h }
 // SetOnCall registers a callback run at the beginning of every Read/Write call on this
 // endpoint with the call's index (1-based). It must not block.
 func (c *Conn) SetOnCall(f func(call int, isRead bool)) { c.mu.Lock(); c.onCall = f; c.mu.Unlock() }
+
+// SetEOFWithData makes Read return the last bytes of the stream together with io.EOF in ONE call (n > 0,
+// err == io.EOF), which the io.Reader contract allows and wrappers must handle.
+func (c *Conn) SetEOFWithData(v bool) { c.mu.Lock(); c.errWithData = v; c.mu.Unlock() }
 
 // SetMode overrides the chunking mode for deliveries TO this endpoint.
 func (c *Conn) SetMode(m LinkMode) { c.mode = &m }
